@@ -223,6 +223,7 @@ class Check:
         self.log("cargo build", crate, bins)
         rc, out, err = sh(cmd, cwd=hdir, env=env_base(), timeout=3600)
         if rc != 0:
+            print("---- cargo build failed (tail) ----\n" + err[-3000:] + "\n----", flush=True)
             self.broken.append({"kind": "tie", "what": "harness %s/%s no longer builds against /repo" % (crate, ",".join(bins)),
                                 "detail": err[-6000:]})
             return None
